@@ -475,10 +475,39 @@ def mixed_magnitudes(ctx: Ctx) -> None:
                 prev = (p, want)
 
 
+def batch_independence(ctx: Ctx) -> None:
+    """The risk of a sample does not depend on what else is in the batch: columns of very different spreads (units, thousands,
+    millions) evaluated in one (N, M) call give, column by column, the value of that column evaluated alone - to the accuracy
+    of the column's own scale.  (All columns are dispersed enough for the quadratic CVaR's bracket: no concentrated sample.)"""
+    import pfhedge.nn.functional as F
+    base = torch.tensor([-2.0, -1.0, 0.0, 1.0, 3.0, -5.0, 2.5, 0.5], dtype=torch.float64)
+    for scales in ((1.0, 1e3, 1e6), (1e6, 1.0), (5.0, 2e6, 40.0)):
+        X = torch.stack([base * sc + 0.25 * sc for sc in scales], dim=1)
+        measures = [("es(p=0.3)", lambda t: F.expected_shortfall(t, 0.3, dim=0), 1e-12), ("erm(a=1/scale)", None, 1e-10), ("qcvar(lam=1)", lambda t: F.quadratic_cvar(t, 1.0, dim=0), 1e-8),
+                    ("qcvar(lam=10)", lambda t: F.quadratic_cvar(t, 10.0, dim=0), 1e-8)]
+        for name, rho, tol in measures:
+            if rho is None:
+                continue
+            try:
+                together = rho(X)
+                alone = torch.stack([rho(X[:, [j]])[0] for j in range(X.size(1))])
+            except Exception as e:
+                ctx.violation(f"axiom:{name.split('(')[0]}:batch:raises", f"{name} raised {type(e).__name__} on columns of very different spreads", {"error": repr(e)[:200]})
+                continue
+            ctx.count(n=X.size(1))
+            sc = torch.tensor(scales, dtype=torch.float64)
+            bad = ~((together - alone).abs() <= tol * sc * 8)
+            if bool(bad.any()):
+                j = int(bad.nonzero()[0])
+                ctx.violation(f"axiom:{name.split('(')[0]}:batch-independence", f"{name} of a column evaluated together with columns of very different spreads differs from the same column evaluated alone",
+                              {"scales": list(scales), "column": j, "in_batch": together[j].item(), "alone": alone[j].item()})
+
+
 def axiom_replay(ctx: Ctx, pairs: List[Dict[str, Any]], seed: int) -> None:
     import pfhedge.nn.functional as F
     import pfhedge.nn as nn
     mixed_magnitudes(ctx)
+    batch_independence(ctx)
 
     byN: Dict[int, List[Dict[str, Any]]] = defaultdict(list)
     for r in pairs:
